@@ -308,6 +308,17 @@ func checkTiling(w *world, c geneCase, model []span) *vlib.Failure {
 		}
 		return nil
 	}
+	// the introns worked out from the exon set alone are the transcript's introns, on the transcript
+	if viaExons := ex.Introns(); len(viaExons) != len(in) {
+		return vlib.Failf("tiling", "Exons().Introns() gives %d introns, Introns() %d", len(viaExons), len(in))
+	} else {
+		for i := range in {
+			a, b := viaExons[i], in[i]
+			if a.Start() != b.Start() || a.End() != b.End() || a.Location() != b.Location() {
+				return vlib.Failf("tiling", "intron %d: Exons().Introns() gives [%d,%d) on %v, Introns() [%d,%d) on %v", i, a.Start(), a.End(), a.Location(), b.Start(), b.End(), b.Location())
+			}
+		}
+	}
 	if len(in) != len(ex)-1 {
 		return vlib.Failf("tiling", "%d exons and %d introns", len(ex), len(in))
 	}
